@@ -10,7 +10,6 @@ use jbonsai::speech::SpeechGenerator;
 use jbonsai::Engine;
 use jlabel::Label;
 use std::collections::BTreeSet;
-use std::path::Path;
 use std::sync::{Arc, Barrier, Mutex};
 use std::time::Instant;
 
@@ -98,8 +97,8 @@ impl Utt {
 }
 
 /// reference: freshly loaded engine, same file, same condition values, single-threaded
-fn fresh_reference(path: &Path, cond: &Cond, labels: &Utt) -> Result<Vec<f64>, String> {
-    let mut e = Engine::load(&[path]).map_err(|e| format!("{}", e))?;
+fn fresh_reference(v: &Voice, cond: &Cond, labels: &Utt) -> Result<Vec<f64>, String> {
+    let mut e = v.load()?;
     cond.apply(&mut e);
     labels.synth(&e).map_err(|e| format!("{}", e))
 }
@@ -109,22 +108,60 @@ fn bits_eq(a: &[f64], b: &[f64]) -> bool {
 }
 
 struct Voice {
-    path: std::path::PathBuf,
+    paths: Vec<std::path::PathBuf>,
     descr: String,
     nstreams: usize,
     temp: bool,
+    /// interpolation weights (duration, parameter per stream, gv per stream) for multi-voice engines
+    weights: Option<(Vec<f64>, Vec<Vec<f64>>, Vec<Vec<f64>>)>,
+}
+
+impl Voice {
+    fn load(&self) -> Result<Engine, String> {
+        let mut e = Engine::load(&self.paths).map_err(|e| format!("{}", e))?;
+        if let Some((d, p, g)) = &self.weights {
+            let iw = e.condition.get_interporation_weight_mut();
+            iw.set_duration(d).map_err(|e| format!("{}", e))?;
+            for (i, w) in p.iter().enumerate() {
+                iw.set_parameter(i, w).map_err(|e| format!("{}", e))?;
+            }
+            for (i, w) in g.iter().enumerate() {
+                iw.set_gv(i, w).map_err(|e| format!("{}", e))?;
+            }
+        }
+        Ok(e)
+    }
+    fn cleanup(&self, env: &Env) {
+        if self.temp {
+            for p in &self.paths {
+                env.remove(p);
+            }
+        }
+    }
 }
 
 fn pick_voice(env: &Env, rng: &mut Rng, bundled_p: f64) -> Result<Voice, String> {
     if rng.chance(bundled_p) {
-        Ok(Voice { path: env.bundled_path.clone(), descr: "bundled".into(), nstreams: 3, temp: false })
-    } else {
-        let o = VoiceOpts::random(rng);
+        return Ok(Voice { paths: vec![env.bundled_path.clone()], descr: "bundled".into(), nstreams: 3, temp: false, weights: None });
+    }
+    let mut o = VoiceOpts::random(rng);
+    // half of the generated voices ask regex-fallback questions whose answer depends on the label
+    o.varying_regex_root = rng.chance(0.5);
+    let nv = if rng.chance(0.3) { rng.range(2, 3) } else { 1 };
+    let mut paths = Vec::new();
+    for _ in 0..nv {
         let spec = voicegen::generate(&o, &env.pool, rng);
         let bytes = voicegen::write(&spec);
-        let p = env.voice_file(&bytes);
-        Ok(Voice { path: p, descr: format!("synthetic[{}]", o.describe()), nstreams: o.nstreams, temp: true })
+        paths.push(env.voice_file(&bytes));
     }
+    let weights = if nv > 1 {
+        // the three kinds of weight vectors all differ from each other
+        let mk = |rng: &mut Rng| crate::env::dyadic_weights(rng, nv, false);
+        Some((mk(rng), (0..o.nstreams).map(|_| mk(rng)).collect(), (0..o.nstreams).map(|_| mk(rng)).collect()))
+    } else {
+        None
+    };
+    Ok(Voice { paths, descr: format!("{}x synthetic[{}]", nv, o.describe()), nstreams: o.nstreams, temp: true, weights })
 }
 
 // ------------------------------------------------------------------ sequential interleavings
@@ -138,10 +175,10 @@ fn interleave(ctx: &mut Ctx, env: &Env, rng: &mut Rng) {
         }
     };
     let cond = Cond::random(rng, v.nstreams, true);
-    let mut engine = match Engine::load(&[&v.path]) {
+    let mut engine = match v.load() {
         Ok(e) => e,
         Err(e) => {
-            ctx.violation("voice-does-not-load", J::from(format!("{}", e)));
+            ctx.violation("voice-does-not-load", J::from(e));
             return;
         }
     };
@@ -150,7 +187,7 @@ fn interleave(ctx: &mut Ctx, env: &Env, rng: &mut Rng) {
     let utts: Vec<Utt> = (0..nu).map(|_| Utt::random(env, rng, 1, if ctx.quick() { 4 } else { 12 }, cond.alignment)).collect();
     let mut refs = Vec::new();
     for u in &utts {
-        match fresh_reference(&v.path, &cond, u) {
+        match fresh_reference(&v, &cond, u) {
             Ok(w) => refs.push(w),
             Err(e) => {
                 ctx.violation("reference-synthesis-err", J::from(e));
@@ -266,9 +303,7 @@ fn interleave(ctx: &mut Ctx, env: &Env, rng: &mut Rng) {
     if ctx.want_sample() {
         ctx.sample(J::obj().set("voice", v.descr.clone()).set("program", J::from(prog)));
     }
-    if v.temp {
-        env.remove(&v.path);
-    }
+    v.cleanup(env);
 }
 
 // ------------------------------------------------------------------ setter histories
@@ -295,7 +330,7 @@ fn setter_history(ctx: &mut Ctx, env: &Env, rng: &mut Rng) {
         fin.gv_weight[i] = Some(fin.gv_weight[i].unwrap_or(1.0));
         fin.msd_threshold[i] = Some(fin.msd_threshold[i].unwrap_or(0.5));
     }
-    let (Ok(mut a), Ok(mut b)) = (Engine::load(&[&v.path]), Engine::load(&[&v.path])) else {
+    let (Ok(mut a), Ok(mut b)) = (v.load(), v.load()) else {
         ctx.violation("voice-does-not-load", J::from(v.descr.clone()));
         return;
     };
@@ -313,7 +348,7 @@ fn setter_history(ctx: &mut Ctx, env: &Env, rng: &mut Rng) {
         b.condition.set_alpha(*rng.pick(&[-5.0, 7.0, 0.2]));
         b.condition.set_msd_threshold(rng.below(n), *rng.pick(&[-1.0, 2.0, 0.1]));
         let iw = b.condition.get_interporation_weight_mut();
-        let _ = iw.set_duration(&[0.5, 0.5]); // wrong length for a single voice: rejected
+        let _ = iw.set_duration(&[0.5, 0.25]); // bad sum: rejected whatever the number of voices
         let _ = iw.set_parameter(0, &[2.0]); // bad sum: rejected
         let _ = iw.set_gv(0, &[f64::NAN]);
         log.push(format!("junk {}", junk.to_json()));
@@ -354,7 +389,7 @@ fn setter_history(ctx: &mut Ctx, env: &Env, rng: &mut Rng) {
             6 => c.set_sampling_frequency(fin.rate.unwrap()),
             7 => c.set_phoneme_alignment_flag(fin.alignment),
             8 => {
-                let _ = c.get_interporation_weight_mut().set_duration(&[1.0]);
+                let _ = c.get_interporation_weight_mut().set_duration(&[0.25, 0.25]); // rejected: nothing changes
             }
             k if k < 9 + n => c.set_gv_weight(k - 9, fin.gv_weight[k - 9].unwrap()),
             k => c.set_msd_threshold(k - 9 - n, fin.msd_threshold[k - 9 - n].unwrap()),
@@ -389,9 +424,7 @@ fn setter_history(ctx: &mut Ctx, env: &Env, rng: &mut Rng) {
         }
     }
     ctx.nontrivial(mix(&[2, hash_str(&v.descr), hash_str(&log.join(";")), hash_str(&format!("{}", fin.to_json()))]));
-    if v.temp {
-        env.remove(&v.path);
-    }
+    v.cleanup(env);
 }
 
 // ------------------------------------------------------------------ concurrent calls on one shared engine
@@ -500,10 +533,10 @@ fn concurrent(ctx: &mut Ctx, env: &Env, rng: &mut Rng, idx: usize) {
         }
     };
     let cond = Cond::random(rng, v.nstreams, true);
-    let mut engine = match Engine::load(&[&v.path]) {
+    let mut engine = match v.load() {
         Ok(e) => e,
         Err(e) => {
-            ctx.violation("voice-does-not-load", J::from(format!("{}", e)));
+            ctx.violation("voice-does-not-load", J::from(e));
             return;
         }
     };
@@ -511,7 +544,7 @@ fn concurrent(ctx: &mut Ctx, env: &Env, rng: &mut Rng, idx: usize) {
     let utts: Vec<Utt> = (0..6).map(|_| Utt::random(env, rng, 1, if ctx.quick() { 3 } else { 8 }, cond.alignment)).collect();
     let mut refs = Vec::new();
     for u in &utts {
-        match fresh_reference(&v.path, &cond, u) {
+        match fresh_reference(&v, &cond, u) {
             Ok(w) => refs.push(hash_f64s(&w)),
             Err(e) => {
                 ctx.violation("reference-synthesis-err", J::from(e));
@@ -566,9 +599,7 @@ fn concurrent(ctx: &mut Ctx, env: &Env, rng: &mut Rng, idx: usize) {
                 .set("events_head", J::Arr(ev.iter().take(6).map(|e| J::Str(format!("t{} {} u{} [{}..{}]ns {:016x}", e.thread, e.op, e.utt, e.t_call, e.t_ret, e.hash))).collect())),
         );
     }
-    if v.temp {
-        env.remove(&v.path);
-    }
+    v.cleanup(env);
 }
 
 // ------------------------------------------------------------------ interpreter-sized workload (Miri)
